@@ -142,6 +142,10 @@ func runJob(job *spec.Job) (res spec.Result) {
 			res.Error = fmt.Sprintf("harness panic: %v\n%s", r, debug.Stack())
 		}
 	}()
+	// simulated lock / once / waitgroup state is process state, like the real primitives' own: it is cleared when a job
+	// starts (jobs run in fresh processes anyway) and then survives from one call of the job to the next - a lock that a
+	// call leaves held (e.g. because it left through a panic) is still held for the next call
+	simrt.ResetSync()
 	switch job.Kind {
 	case "multi":
 		return runMulti(job)
@@ -584,7 +588,6 @@ func runOne(ec *execCtx, c *spec.Call, a *args, r *spec.Resolution, mon *recMon)
 	if err != nil {
 		return spec.Outcome{Verdict: "HARNESS", Detail: err.Error()}
 	}
-	simrt.ResetSync()
 	g := simrt.NewGroup(0, cfg)
 	body, finish := prepare(ec, c, a, g, mon)
 	s := simrt.NewSched(simrt.SchedCfg{Policy: "random", Seed: r.AdvSeed ^ 0x5ced, MaxSteps: 1 << 22})
@@ -791,7 +794,6 @@ func runConc(job *spec.Job) spec.Result {
 		return &job.Res[0]
 	}
 	// concurrent run first: package-level state that is initialised lazily is still cold in a fresh process
-	simrt.ResetSync()
 	sc := simrt.SchedCfg{Policy: "random", MaxSteps: 1 << 24}
 	if job.Sched != nil {
 		sc = simrt.SchedCfg{Policy: job.Sched.Policy, Seed: job.Sched.Seed, Depth: job.Sched.Depth, Steps: job.Sched.Steps, EntryPct: job.Sched.EntryPct, LoopPct: job.Sched.LoopPct,
